@@ -20,8 +20,8 @@ import (
 // must fail and which must complete.
 
 var c27ServerScen = []string{"trusted", "untrusted", "expired", "notyet", "wrongname", "wrongkey", "badsig", "nointer", "ip_ok", "ip_mismatch", "expired_root", "root_still_valid",
-	"pathlen", "under_leaf", "resume_ok", "resume_expired", "cn_without_dns_san", "odd_eku", "forged_leaf", "forged_inter"}
-var c27ClientScen = []string{"none", "trusted", "untrusted", "expired", "wrongkey", "badsig", "pathlen", "under_leaf", "odd_eku", "forged_leaf"}
+	"pathlen", "under_leaf", "resume_ok", "resume_expired", "cn_without_dns_san", "odd_eku", "forged_leaf", "forged_inter", "name_prefix", "no_certsign", "eku_date_mix"}
+var c27ClientScen = []string{"none", "trusted", "untrusted", "expired", "wrongkey", "badsig", "pathlen", "under_leaf", "odd_eku", "forged_leaf", "no_certsign", "eku_date_mix"}
 
 type c27Scenario struct {
 	Seed       uint64 `json:"seed"`
@@ -114,6 +114,22 @@ func (f *skxSigFlipper) Write(p []byte) ([]byte, int) {
 }
 func (f *skxSigFlipper) Closed() []byte { b := f.buf; f.buf = nil; return b }
 
+// c27MixChain: the issuing CA exists in two certificates for the same subject and key — one expired (usable for TLS),
+// one valid whose extended key usage allows e-mail protection only. No path is both valid now and usable for TLS
+// authentication, whichever of the two the peer sends and in whatever order.
+func c27MixChain(leaf *kit.Cert, pick uint64) [][]byte {
+	p := pki()
+	switch pick % 4 {
+	case 0:
+		return [][]byte{leaf.DER, p.MixExpired.DER, p.MixEmail.DER}
+	case 1:
+		return [][]byte{leaf.DER, p.MixEmail.DER, p.MixExpired.DER}
+	case 2:
+		return [][]byte{leaf.DER, p.MixExpired.DER}
+	}
+	return [][]byte{leaf.DER, p.MixEmail.DER}
+}
+
 func genC27(seed uint64, tier string) any {
 	r := kit.NewRng(seed)
 	sc := &c27Scenario{Seed: seed}
@@ -130,9 +146,9 @@ func genC27(seed uint64, tier string) any {
 		break
 	}
 	sc.Key = keyForSuite(r, suiteByID[sc.Suite], sc.Version)
-	sc.ServerScen = c27ServerScen[r.Pick([]int{9, 1, 1, 1, 1, 2, 2, 1, 1, 1, 1, 1, 1, 1, 1, 2, 1, 1, 1, 1})]
+	sc.ServerScen = c27ServerScen[r.Pick([]int{9, 1, 1, 1, 1, 2, 2, 1, 1, 1, 1, 1, 1, 1, 1, 2, 1, 1, 1, 1, 1, 1, 1})]
 	sc.AuthMode = r.Intn(5)
-	sc.ClientScen = c27ClientScen[r.Pick([]int{2, 3, 1, 1, 2, 2, 1, 1, 1, 1})]
+	sc.ClientScen = c27ClientScen[r.Pick([]int{2, 3, 1, 1, 2, 2, 1, 1, 1, 1, 1, 1})]
 	sc.ClientKey = []string{"rsa", "p256", "p384", "ed"}[r.Pick([]int{3, 3, 1, 2})]
 	if sc.ClientKey == "ed" && sc.Version < vTLS12 {
 		sc.ClientKey = "p256"
@@ -182,7 +198,7 @@ func c27Table(sc *c27Scenario) c27Expect {
 		if sc.ClientScen == "wrongkey" || sc.ClientScen == "badsig" {
 			e.ServerMustFail = true
 			e.Reason = "client does not prove possession (" + sc.ClientScen + ")"
-		} else if (sc.ClientScen == "untrusted" || sc.ClientScen == "expired" || sc.ClientScen == "pathlen" || sc.ClientScen == "under_leaf" || sc.ClientScen == "odd_eku" || sc.ClientScen == "forged_leaf") &&
+		} else if (sc.ClientScen == "untrusted" || sc.ClientScen == "expired" || sc.ClientScen == "pathlen" || sc.ClientScen == "under_leaf" || sc.ClientScen == "odd_eku" || sc.ClientScen == "forged_leaf" || sc.ClientScen == "no_certsign" || sc.ClientScen == "eku_date_mix") &&
 			(sc.AuthMode == int(tls.VerifyClientCertIfGiven) || sc.AuthMode == int(tls.RequireAndVerifyClientCert)) {
 			e.ServerMustFail = true
 			e.Reason = "client chain does not verify (" + sc.ClientScen + ")"
@@ -256,6 +272,14 @@ func execC27(t *testing.T, scAny any, keepLog bool) *Outcome {
 		case "forged_inter":
 			// the intermediate names the trusted (ECDSA) root as its issuer but was signed with another key
 			scfg.Certificates = []tls.Certificate{{Certificate: [][]byte{p.ServerUnderForged[kind].DER, p.ForgedInter.DER}, PrivateKey: kit.TLSKey(keyOfKind[kind])}}
+		case "name_prefix":
+			// the certificate's only name has fewer labels than the server name and equals / wildcard-matches its leading labels
+			scfg.Certificates = []tls.Certificate{tlsCert(p.ServerPrefix[kind][int(sc.Seed>>4)%3], true, keyOfKind[kind])}
+		case "no_certsign":
+			// the issuing CA is CA:TRUE but its keyUsage does not assert keyCertSign (RFC 5280 4.2.1.3)
+			scfg.Certificates = []tls.Certificate{{Certificate: [][]byte{p.ServerUnderNoSign[kind].DER, p.InterNoSign.DER}, PrivateKey: kit.TLSKey(keyOfKind[kind])}}
+		case "eku_date_mix":
+			scfg.Certificates = []tls.Certificate{{Certificate: c27MixChain(p.ServerUnderMix[kind], sc.Seed), PrivateKey: kit.TLSKey(keyOfKind[kind])}}
 		case "odd_eku":
 			// extended key usage present and without serverAuth / anyExtendedKeyUsage (one private OID)
 			scfg.Certificates = []tls.Certificate{tlsCert(p.ServerOddEKU[kind], true, keyOfKind[kind])}
@@ -306,6 +330,10 @@ func execC27(t *testing.T, scAny any, keepLog bool) *Outcome {
 		case "odd_eku":
 			c := tlsCert(p.ClientOddEKU[ck], true, clientKeyOfKind[ck])
 			ccert = &c
+		case "no_certsign":
+			ccert = &tls.Certificate{Certificate: [][]byte{p.ClientUnderNoSign[ck].DER, p.InterNoSign.DER}, PrivateKey: kit.TLSKey(clientKeyOfKind[ck])}
+		case "eku_date_mix":
+			ccert = &tls.Certificate{Certificate: c27MixChain(p.ClientUnderMix[ck], sc.Seed>>2), PrivateKey: kit.TLSKey(clientKeyOfKind[ck])}
 		case "forged_leaf":
 			ccert = &tls.Certificate{Certificate: [][]byte{p.ClientForgedLeaf[ck].DER, p.InterEC.DER}, PrivateKey: kit.TLSKey(clientKeyOfKind[ck])}
 		case "under_leaf":
